@@ -40,8 +40,12 @@ import (
 )
 
 // ---------------------------------------------------------------------------------------------
-// converter mode: echo every chunk as "<" + content + ">" (same direction, same time)
+// converter mode: echo every chunk as "<" + leet(content) + ">" (same direction, same time); leet replaces every
+// 'o' by '0', so the words "f00" and "b0b"… occur in converter output only: a data filter on such a word is true
+// for a stream iff some converter has cached output for it and its raw payload holds the plain word
 // ---------------------------------------------------------------------------------------------
+
+func leet(s string) string { return strings.ReplaceAll(s, "o", "0") }
 
 func converterMain() {
 	in := bufio.NewReaderSize(os.Stdin, 1<<20)
@@ -68,7 +72,7 @@ func converterMain() {
 				return
 			}
 			raw, _ := base64.StdEncoding.DecodeString(m["Content"].(string))
-			m["Content"] = base64.StdEncoding.EncodeToString([]byte("<" + string(raw) + ">"))
+			m["Content"] = base64.StdEncoding.EncodeToString([]byte("<" + leet(string(raw)) + ">"))
 			b, _ := json.Marshal(m)
 			out.Write(b)
 			out.WriteByte('\n')
@@ -144,6 +148,7 @@ type flowTruth struct {
 	firstNew       bool // earliest datagram comes from the captures of the current import
 	hasOld, hasNew bool
 	swapped        bool // the flow's "server" side sent the earliest datagram
+	cached         bool // some converter holds cached output for the stream (set per evaluation from the service state)
 }
 
 func truthOf(pcaps map[string]*pcapDef, processed []string, newOnes map[string]bool) map[int]*flowTruth {
@@ -300,9 +305,16 @@ func (h *harness) evalAtoms(atoms []string, id uint64, ft *flowTruth, depth int)
 				r = ft.sbytes >= n
 			}
 		case "cdata":
-			r = strings.Contains(ft.cdata, v)
+			// a data filter without converter name searches the raw payload AND every cached converter output
+			r = strings.Contains(ft.cdata, v) || (ft.cached && strings.Contains(leet(ft.cdata), v))
+			if !strings.Contains(ft.cdata, v) && strings.Contains(leet(ft.cdata), v) && h.convInFlight {
+				return false, false // output cached by a converter job whose completion is not delivered yet: undetermined
+			}
 		case "sdata":
-			r = strings.Contains(ft.sdata, v)
+			r = strings.Contains(ft.sdata, v) || (ft.cached && strings.Contains(leet(ft.sdata), v))
+			if !strings.Contains(ft.sdata, v) && strings.Contains(leet(ft.sdata), v) && h.convInFlight {
+				return false, false
+			}
 		case "id":
 			if v == "-1" {
 				r = false
@@ -421,6 +433,7 @@ type harness struct {
 	// the state file that the most recent state save replaced (and removed), and the scenario line of that save
 	removedState *stateFileCopy
 	removedAt    int
+	convInFlight bool // a converter job is in flight: what it cached is not "current data" for the tags yet
 }
 
 type stateFileCopy struct {
@@ -681,7 +694,15 @@ func (h *harness) checkOracles(st manager.VerifState) {
 			h.complain("C08", "connection of flow %d visible under two stream ids (%d and %d)", f, idOf[f], o.id)
 		}
 		idOf[f] = o.id
-		byID[o.id] = ft
+		ftc := *ft
+		for _, ids := range st.Cached {
+			for _, cid := range ids {
+				if cid == o.id {
+					ftc.cached = true
+				}
+			}
+		}
+		byID[o.id] = &ftc
 		if o.cbytes != ft.cbytes || o.sbytes != ft.sbytes || o.cdata != ft.cdata || o.sdata != ft.sdata {
 			h.complain("C10", "stream %d of flow %d is not the newest version: have c=%d/%q s=%d/%q want c=%d/%q s=%d/%q", o.id, f,
 				o.cbytes, o.cdata, o.sbytes, o.sdata, ft.cbytes, ft.cdata, ft.sbytes, ft.sdata)
@@ -694,6 +715,7 @@ func (h *harness) checkOracles(st manager.VerifState) {
 	}
 	// --- C06 (service state): decided (id < next, not uncertain) => matches == evaluation of the definition
 	h.world = byID
+	h.convInFlight = st.Convert
 	for _, t := range st.Tags {
 		unc := map[uint]bool{}
 		for _, u := range t.Uncertain {
@@ -824,7 +846,7 @@ func (h *harness) checkOracles(st manager.VerifState) {
 				}
 			}
 			strip := func(x string) string { return strings.NewReplacer("<", "", ">", "").Replace(x) }
-			if strip(c) != ft.cdata || strip(s) != ft.sdata {
+			if strip(c) != leet(ft.cdata) || strip(s) != leet(ft.sdata) {
 				h.complain("C16", "converter %s output of stream %d is for other data: have %q/%q, current payload %q/%q", cn, id, strip(c), strip(s), ft.cdata, ft.sdata)
 			}
 		}
@@ -1430,6 +1452,9 @@ func (h *harness) settle() (event, error) {
 var tagNames = []string{"mark/m", "tag/a", "tag/b", "service/s", "tag/c", "tag/d"}
 var words = []string{"foo", "bar", "GET", "x"}
 
+// words a data FILTER may look for: "f00" occurs in converter output only (leet of "foo")
+var filterWords = []string{"foo", "bar", "GET", "x", "f00", "f00"}
+
 type genTag struct {
 	data bool // definition looks at payload or byte counts
 	refs bool
@@ -1479,6 +1504,11 @@ func (g *genWorld) genDef(self string, wild bool) (string, *genTag) {
 			gt.refs = true
 		}
 		if r.Chance(1, 4) {
+			// the sub-query looks at payload (also at cached converter output)
+			sub = "@s:cdata:" + lib.Pick(r, filterWords)
+			gt.data = true
+		}
+		if r.Chance(1, 4) {
 			sub = "-" + sub
 		}
 		atoms = append(atoms, sub)
@@ -1517,10 +1547,10 @@ func (g *genWorld) genDef(self string, wild bool) (string, *genTag) {
 			a = fmt.Sprintf("sbytes:%d:", lib.Pick(r, []int{1, 3, 4}))
 			gt.data = true
 		case 4:
-			a = "cdata:" + lib.Pick(r, words)
+			a = "cdata:" + lib.Pick(r, filterWords)
 			gt.data = true
 		case 5:
-			a = "sdata:" + lib.Pick(r, words)
+			a = "sdata:" + lib.Pick(r, filterWords)
 			gt.data = true
 		default:
 			cands := []string{}
@@ -1638,7 +1668,20 @@ func gen(seed uint64, n int, w io.Writer) {
 		tagPort := func() string {
 			return lib.Pick(r, []string{fmt.Sprintf("sport:%d", 2000+fl), fmt.Sprintf("cport:%d", 1000+fl), fmt.Sprintf("sport:%d", 1000+fl)})
 		}
-		switch r.Intn(7) {
+		switch r.Intn(9) {
+		case 8: // a tag relates every stream to one whose converter output holds a word; that output appears later
+			fmt.Fprintf(w, "pcap q0.pcap 0:100:c:foo 1:101:c:%s 2:102:c:foo\nimport q0.pcap\nrel import\n", lib.Pick(r, []string{"bar", "foo", "GET"}))
+			fmt.Fprintf(w, "addtag tag/b red @s:cdata:f00 %s\nrel tag\n", lib.Pick(r, []string{"cbytes:@s:cbytes@", "sbytes:@s:sbytes@"}))
+			fmt.Fprintf(w, "addtag tag/a red sport:%d\nrel tag\nupdconv tag/a conv1\nrel convert\nrel tag\n", 2000+2*r.Intn(2))
+			g.tags["tag/a"], g.tags["tag/b"] = &genTag{}, &genTag{data: true, sub: true}
+			g.flows[0], g.flows[1], g.flows[2] = true, true, true
+		case 7: // a tag and the tag it references are deleted and added again (the referenced one with another
+			// definition) while the tagging job of the referencing tag is parked
+			fmt.Fprintf(w, "pcap q0.pcap 0:100:c:%s 1:101:c:%s\nimport q0.pcap\nrel import\n", word, word)
+			fmt.Fprintf(w, "addtag tag/a red id:%d\nrel tag\naddtag tag/b red %stag:a\n", r.Intn(2), lib.Pick(r, []string{"", "-"}))
+			fmt.Fprintf(w, "deltag tag/b\ndeltag tag/a\naddtag tag/a red id:%d\naddtag tag/b red %stag:a\nrel tag\nrel tag\n", r.Intn(2), lib.Pick(r, []string{"", "-"}))
+			g.tags["tag/a"], g.tags["tag/b"] = &genTag{}, &genTag{refs: true}
+			g.flows[0], g.flows[1] = true, true
 		case 6: // two tags with overlapping matches share a converter; one is detached / deleted / re-attached
 			// while an earlier converter job is still parked, so the common stream is only queued
 			fmt.Fprintf(w, "pcap q0.pcap 0:100:c:%s 1:101:c:%s 2:102:c:%s\nimport q0.pcap\nrel import\n", word, word, word)
